@@ -145,7 +145,7 @@ def ty_yaml(t, rng=None, expanded_p=0.25):
         if all(c[0] is None for c in cases):
             items = (["null"] if has_null else []) + [ty_yaml(c[1], rng, expanded_p) for c in cases]
             return "[" + ", ".join(items) + "]"
-        items = (["null: null"] if has_null else []) + [f"{c[0]}: {ty_yaml(c[1], rng, expanded_p)}" for c in cases]
+        items = (["null: null"] if has_null else []) + [f"{yname(c[0])}: {ty_yaml(c[1], rng, expanded_p)}" for c in cases]
         return "!union {" + ", ".join(items) + "}"
     if k == "vec":
         r = "!vector {items: " + ty_yaml(t[1], rng, expanded_p)
@@ -173,10 +173,18 @@ def ty_yaml(t, rng=None, expanded_p=0.25):
     raise ValueError(t)
 
 
+YAML_SPECIAL = {"true", "false", "null", "yes", "no", "on", "off", "y", "n", "~"}
+
+
+def yname(n):
+    """a mapping key that YAML would not read as a string is quoted"""
+    return '"' + n + '"' if n.lower() in YAML_SPECIAL else n
+
+
 def def_header(d):
     if d.get("tparams"):
         return d["name"] + "<" + ", ".join(d["tparams"]) + ">"
-    return d["name"]
+    return yname(d["name"])
 
 
 def def_yaml(d, rng=None, expanded_p=0.25):
@@ -188,32 +196,32 @@ def def_yaml(d, rng=None, expanded_p=0.25):
         out.append(def_header(d) + ": !record")
         out.append("  fields:")
         for (n, t) in d["fields"]:
-            out.append(f"    {n}: {ty_yaml(t, rng, expanded_p)}")
+            out.append(f"    {yname(n)}: {ty_yaml(t, rng, expanded_p)}")
         if d.get("computed"):
             out.append("  computedFields:")
             for (n, e) in d["computed"]:
-                out.append(f"    {n}: {e}")
+                out.append(f"    {yname(n)}: {e}")
     elif k == "enum":
-        out.append(d["name"] + (": !flags" if d["flags"] else ": !enum"))
+        out.append(yname(d["name"]) + (": !flags" if d["flags"] else ": !enum"))
         if d.get("base"):
             out.append(f"  base: {d['base']}")
         if d.get("auto"):
-            out.append("  values: [" + ", ".join(s for s, _ in d["values"]) + "]")
+            out.append("  values: [" + ", ".join(yname(s) for s, _ in d["values"]) + "]")
         else:
             out.append("  values:")
             for (s, v) in d["values"]:
-                out.append(f"    {s}: {v}")
+                out.append(f"    {yname(s)}: {v}")
     elif k == "alias":
         out.append(def_header(d) + ": " + ty_yaml(d["type"], rng, expanded_p))
     elif k == "protocol":
-        out.append(d["name"] + ": !protocol")
+        out.append(yname(d["name"]) + ": !protocol")
         out.append("  sequence:")
         for (n, t, st) in d["steps"]:
             if st:
-                out.append(f"    {n}: !stream")
+                out.append(f"    {yname(n)}: !stream")
                 out.append(f"      items: {ty_yaml(t, rng, expanded_p)}")
             else:
-                out.append(f"    {n}: {ty_yaml(t, rng, expanded_p)}")
+                out.append(f"    {yname(n)}: {ty_yaml(t, rng, expanded_p)}")
     else:
         raise ValueError(k)
     return "\n".join(out) + "\n"
